@@ -37,6 +37,16 @@ CHECKS = {
    text="Conversion defects live in discrete branches (largest-diagonal branch, gimbal branch, axis-dominance branch, convention parity tables); the grids hit every branch of every convention, and each conversion is compared with elementary-rotation products / Rodrigues / quaternion sandwich at the matrix level so angle non-uniqueness cannot cause false alarms.",
    note="Tolerance 1e-9 (5e-6 within 1e-9 of a singular angle where the inverse trigonometric step is ill-conditioned by 1/cos).",
    design="3.C19"),
+ "C04": dict(level="model_checking", engine="E1",
+   technique="exhaustive enumeration of short histories ([read all] -> M; M -> inverse M; A -> B vs B.A) over geometry kinds x matrix alphabet on real objects against the reference model 'p -> M.p, nothing else'",
+   text="The covariance laws are laws about short operation histories; every history of the three shapes is executed for 13 geometry kinds and a matrix alphabet holding every class of the statement (24 rotations, 24 mirrors, similarity, anisotropic, shear, determinants of tiny magnitude, near-identity either side of both shortcuts), with and without every derived value read beforehand, and compared with the definition. Solids additionally: valid volume kept, |det| volume law, centre of mass, normals vs triangles, bounds, area and inertia tensor law under similarities.",
+   note="Identity shortcut tolerance 1e-8(1+|p|); SceneGraph's documented 1e-5 rigid-repair window for near-identity scene transforms; primitives compared as point multisets (sphere: centre and radius).",
+   design="3.C04"),
+ "C07": dict(level="exploration", engine="E2",
+   technique="bounded-exhaustive enumeration of tagged small meshes x every mask / option combination, tag-tracking oracle",
+   text="Every face and vertex carries a tag (redundantly in colours / uv and attributes). All meshes with <=2 faces from the complete ordered-face alphabet over 4-5 vertices, in vertex configurations containing exact, near and far duplicates, NaN and inf, go through merge_vertices (option product), update_faces with every boolean and every integer mask up to length 3, update_vertices with every boolean mask, the cleaners, submesh over every index sequence, split+concatenate (both engines) and concatenate; afterwards each surviving face / vertex must have the corner positions and data of the original with its tag, indices must be valid and order preserved.",
+   note="Quick tier restricts the first of two faces to 4 representatives; thorough is the full product. Normals tags are checked geometrically (cached normals vs current triangles).",
+   design="3.C07"),
 }
 
 NA = {}
